@@ -19,4 +19,4 @@ print('stable_pass=%d passed_now=%d stable_not_passing=%d' % (len(stable), len(p
 for m in missing[:40]:
     print('  NOT PASSING:', m)
 EOF
-echo "log: $OUT/log"
+echo "log: $OUT/log"; [ -n "$KEEP_BASELINE_LOG" ] || rm -rf $OUT
